@@ -19,6 +19,7 @@ func init() {
 	array.VerifYieldHook = sched.Point
 	index.VerifYieldHook = sched.Point
 	verifsync.YieldHook = sched.Point
+	ResetGlobals = verifsync.ResetPools
 	GlobalsFn = func() []interface{} {
 		var g []interface{}
 		g = append(g, trie.VerifGlobals()...)
